@@ -387,6 +387,9 @@ func c14DiffWithFirst(seqs []string, fold bool) []string {
 // c14Iupac: the set of bases an upper-case IUPAC nucleotide code stands for
 // (bit 0 A, 1 C, 2 G, 3 T); gaps and anything else stand for nothing.
 func c14Iupac(c byte) int {
+	if 'a' <= c && c <= 'z' {
+		c -= 'a' - 'A' // a code stands for the same bases in lower case
+	}
 	switch c {
 	case 'A':
 		return 1
